@@ -90,7 +90,8 @@ let process mode oc line =
       Printf.fprintf oc "%s %s\n" id (go names []);
       let d = match f with FAtlas -> (match delim with [] -> semi | _ -> delim) | _ -> semi in
       let bits = String.concat "" (Stdlib.List.map (fun c -> if scan_closed o d c.c_cmd then "1" else "0") changes) in
-      Printf.fprintf oc "%s closed %s\n" id (if bits = "" then "-" else bits)
+      Printf.fprintf oc "%s closed %s\n" id (if bits = "" then "-" else bits);
+      Printf.fprintf oc "%s hyp %b\n" id (roundtrip_hyp f o now p)
     | "read" ->
       let f = format_of toks.(1) in
       let o = opts_of_bits toks.(2) in
